@@ -73,11 +73,22 @@ def run(cid, tier, jobs=0):
     # build kernels once, before the shards race to do it
     from vm import build
     kinfo = {k: m for k, (s, m) in build.build_all('plain').items()}
+    san_future = None
     try:
-        with cf.ThreadPoolExecutor(jobs) as ex:
+        with cf.ThreadPoolExecutor(jobs + 2) as ex:
+            if hasattr(mod, 'san_indices') and \
+                    os.environ.get('VERIF_NO_SAN') != '1':
+                # sanitizer lane (DESIGN.md section 6) alongside the shards
+                from vm import sanlane
+                san_future = ex.submit(sanlane.run, cid, tier, seed,
+                                       mod.san_indices(tier), timeout)
+            lane_future = ex.submit(mod.extra_lane, tier, seed) \
+                if hasattr(mod, 'extra_lane') else None
             results = list(ex.map(
                 lambda s: _run_shard(cid, tier, seed, s, nshards, outdir,
                                      timeout), range(nshards)))
+            san = san_future.result() if san_future else None
+            lane = lane_future.result() if lane_future else None
     finally:
         shutil.rmtree(outdir, ignore_errors=True)
 
@@ -140,6 +151,28 @@ def run(cid, tier, jobs=0):
             v.setdefault('tier', tier)
             v.setdefault('index', None)
             violations.append(v)
+
+    # sanitizer lane (DESIGN.md section 6)
+    if lane is not None:
+        for v in lane[0]:
+            v.update(property=cid, index=None, seed=seed, tier=tier)
+            violations.append(v)
+        inconclusive.extend(lane[2])
+    if san is not None:
+        for kind, top, excerpt in san['reports']:
+            violations.append({
+                'property': cid, 'sig': '%s/sanitizer/%s@%s' % (cid, kind,
+                                                               top),
+                'message': excerpt, 'index': None, 'seed': seed,
+                'tier': tier})
+        for v in san['info'].pop('violation_records', []):
+            v['sig'] += '/on-sanitizer-build'
+            violations.append(v)
+        if san['status'] == 'crash':
+            violations.append({
+                'property': cid, 'sig': '%s/sanitizer/worker-crash' % cid,
+                'message': json.dumps(san['info'])[-2000:], 'index': None,
+                'seed': seed, 'tier': tier})
 
     # classify
     by_sig = {}
@@ -205,6 +238,10 @@ def run(cid, tier, jobs=0):
         'pythonhashseeds': sorted({r.get('hashseed') for r in results
                                    if r.get('hashseed') is not None}),
         'kernels': kinfo,
+        'extra_lane': None if lane is None else lane[1],
+        'sanitizer_lane': None if san is None else {
+            'status': san['status'], 'reports': len(san['reports']),
+            'info': san['info']},
         'repo': common.REPO,
     }
     if hasattr(mod, 'summarize'):
